@@ -131,13 +131,18 @@ def gen_machine(rng, max_w=5, max_h=5, res=None, p_dead=0.3, p_exc=0.4,
     if rng.random() < p_exc:
         for _ in range(rng.randint(1, 3)):
             xy = (rng.randrange(w), rng.randrange(h))
-            if xy not in dead:
+            # (a chip that died - was added to dead_chips - may well keep
+            # the entry that described it while it worked)
+            if xy not in dead or rng.random() < .5:
                 keys = list(res)
                 if rng.random() < .5:
                     rng.shuffle(keys)       # same resources, other key order
                 exc[xy] = {r: rng.randint(0, res[r] + (1 if rng.random() < .2
                                                        else 0))
                            for r in keys}
+    if dead and exc and rng.random() < .3:
+        xy = rng.choice(sorted(dead))
+        exc[xy] = {r: rng.randint(0, res[r]) for r in res}
     return dict(w=w, h=h, res=dict(res), exc=exc, dead_chips=sorted(dead),
                 dead_links=[])
 
